@@ -134,6 +134,16 @@ func forcedCases(thorough bool) []*Case {
 				lk(1, 0, m2, false), ul(1, false, false))
 		}
 	}
+	// lock.Context token queue: several parked waiters, one in the middle leaves, the rest are
+	// served in arrival order (checked by trace inclusion against the queue of the model)
+	for _, p := range perms(3) {
+		for _, md := range []string{"w", "r"} {
+			a, b, c := p[0]+1, p[1]+1, p[2]+1
+			add("context", "token-queue", 4, 1,
+				lk(0, 0, "w", false), lk(a, 0, md, false), lk(b, 0, "w", false), lk(c, 0, md, false),
+				Step{Do: "cancel", T: b}, ul(0, false, false), ul(a, false, false), ul(c, false, false))
+		}
+	}
 	// --- fifo.Map: simultaneous FIRST Lock of a fresh key ---
 	for _, k := range []int{2, 4, 8} {
 		gr, br := 40, 150
